@@ -3,6 +3,7 @@ package main
 import (
 	"fmt"
 	"go/token"
+	"go/types"
 	"strings"
 
 	"golang.org/x/tools/go/ssa"
@@ -11,7 +12,7 @@ import (
 func init() { register("C04", true, runC04) }
 
 func runC04(c *Check) {
-	c.Explanation = "Decides only two structural clauses of C04 (that flat, cum and edge weights equal their definition over samples is value-level and out of static reach): the printers of the output forms the property names (text/top items, tree/peek, dot, callgrind, topproto, web top) obtain node, edge and tag values through FlatValue/CumValue/WeightValue, or read the raw sum together with its divisor, so the mean option divides the same way in every form (R1); the diff-base label that marks base samples is written, tested and removed with one and the same key and value, is removed only by the report's graph construction, and is left in place by the proto output so a saved diff reopens as a diff (R2); the report total is computed by one function that takes absolute values and, for diffs, only base samples (R3, shape only). Not decided: the numbers themselves, recursion de-duplication, list/disasm/weblist value display under -mean."
+	c.Explanation = "Decides only two structural clauses of C04 (that flat, cum and edge weights equal their definition over samples is value-level and out of static reach): the printers of the output forms the property names (text/top items, tree/peek, dot, callgrind, topproto, web top) obtain node, edge and tag values through FlatValue/CumValue/WeightValue, or read the raw sum together with its divisor, so the mean option divides the same way in every form (R1); the diff-base label that marks base samples is written, tested and removed with one and the same key and value, is removed only by the report's graph construction, and is left in place by the proto output so a saved diff reopens as a diff (R2); the report total is computed by one function that takes absolute values and, for diffs, only base samples (R3, shape only); the sample loops of newGraph and newTree skip a sample only when its mean-divisor contribution is zero as well (R4); the per-sample seen-sets of newGraph are updated with exactly the key that was tested (R5). Not decided: the numbers themselves, recursion de-duplication, list/disasm/weblist value display under -mean."
 	p := c.P
 	// ---- R1 accessor discipline
 	printers := map[string]bool{
@@ -196,6 +197,262 @@ func runC04(c *Check) {
 			c.ok("C04-R3", "total:single", p.relFile(ct.Pos()), "one total per report", "computeTotal is only called from report.New")
 		} else {
 			c.bad("C04-R3", "total:single", p.relFile(ct.Pos()), "the report total is computed in more than one place: "+bad)
+		}
+	}
+	c.meanDivisorNeverSkipped()
+	c.seenSetKeys()
+}
+
+// structKeyFields: the field values of a struct built as a composite literal and loaded
+// (map keys); nil when v is not of that shape.
+func structKeyFields(v ssa.Value) map[int]ssa.Value {
+	ld, ok := v.(*ssa.UnOp)
+	if !ok || ld.Op != token.MUL {
+		return nil
+	}
+	al, ok := ld.X.(*ssa.Alloc)
+	if !ok || al.Referrers() == nil {
+		return nil
+	}
+	out := map[int]ssa.Value{}
+	for _, r := range *al.Referrers() {
+		if fa, ok := r.(*ssa.FieldAddr); ok && fa.Referrers() != nil {
+			for _, r2 := range *fa.Referrers() {
+				if st, ok := r2.(*ssa.Store); ok && st.Addr == ssa.Value(fa) {
+					out[fa.Field] = st.Val
+				}
+			}
+		}
+	}
+	return out
+}
+
+func sameKey(a, b ssa.Value) bool {
+	if a == b {
+		return true
+	}
+	fa, fb := structKeyFields(a), structKeyFields(b)
+	if fa == nil || fb == nil || len(fa) != len(fb) {
+		return false
+	}
+	for i, v := range fa {
+		if fb[i] != v {
+			return false
+		}
+	}
+	return true
+}
+
+// R5: per-sample de-duplication.  newGraph counts a node and an adjacency once per sample
+// by remembering them in seen-sets.  The key recorded after a miss must be the key that was
+// looked up: a key stored with its fields the other way round marks the reverse adjacency
+// as seen and leaves the real one unmarked, so recursive stacks count an edge twice and
+// lose the opposite edge.
+func (c *Check) seenSetKeys() {
+	p := c.P
+	f := c.anchorFn("C04-R5", "internal/graph", "newGraph")
+	if f == nil {
+		return
+	}
+	n := 0
+	for _, b := range f.Blocks {
+		for _, ins := range b.Instrs {
+			mu, ok := ins.(*ssa.MapUpdate)
+			if !ok {
+				continue
+			}
+			mt, ok := mu.Map.Type().Underlying().(*types.Map)
+			if !ok {
+				continue
+			}
+			if bt, ok := mt.Elem().Underlying().(*types.Basic); !ok || bt.Kind() != types.Bool {
+				continue
+			}
+			if _, isMk := mu.Map.(*ssa.MakeMap); !isMk {
+				continue
+			}
+			n++
+			key := "seen-set:" + typeShort(mt.Key())
+			// the guarding lookup: a Lookup on the same map in a block that dominates the update
+			var guard *ssa.Lookup
+			for _, b2 := range f.Blocks {
+				for _, i2 := range b2.Instrs {
+					if lk, ok := i2.(*ssa.Lookup); ok && lk.X == mu.Map && (b2 == b && instrIndex(lk) < instrIndex(mu) || b2 != b && b2.Dominates(b)) {
+						guard = lk
+					}
+				}
+			}
+			switch {
+			case guard == nil:
+				c.bad("C04-R5", key, p.relFile(mu.Pos()), "newGraph records an entry in the per-sample seen-set "+typeShort(mt.Key())+" without testing it first: repeated frames of a recursive stack are counted more than once")
+			case !sameKey(guard.Index, mu.Key):
+				c.bad("C04-R5", key, p.relFile(mu.Pos()), "newGraph looks up the per-sample seen-set with one key and records a different one (the fields of the stored key do not match those of the tested key): for recursive stacks an adjacency is counted twice in one sample and the reverse adjacency is never added")
+			default:
+				c.ok("C04-R5", key, p.relFile(mu.Pos()), "the seen-set "+typeShort(mt.Key())+" is updated with the key that was tested", "same value / same field values for lookup and update")
+			}
+		}
+	}
+	if n < 2 {
+		c.undecided("C04-R5", "seen-set", p.relFile(f.Pos()), fmt.Sprintf("expected the seen-node and seen-edge sets in newGraph, found %d updates", n))
+	}
+}
+
+// R4: with the mean option every sample's count enters the divisors.  In the sample loops
+// of newGraph and newTree a sample may be skipped only when its divisor contribution is
+// zero as well: assuming the divisor is non-zero, no path through one iteration returns to
+// the loop header without reaching the frame loop that accumulates value and divisor.
+func (c *Check) meanDivisorNeverSkipped() {
+	p := c.P
+	for _, name := range []string{"newGraph", "newTree"} {
+		f := c.anchorFn("C04-R4", "internal/graph", name)
+		if f == nil {
+			continue
+		}
+		key := "mean-divisor:" + name
+		// accumulating calls and the divisor value
+		var acc []*ssa.Call
+		var dw ssa.Value
+		for _, b := range f.Blocks {
+			for _, ins := range b.Instrs {
+				call, ok := ins.(*ssa.Call)
+				if !ok || call.Call.StaticCallee() == nil {
+					continue
+				}
+				switch call.Call.StaticCallee().Name() {
+				case "addSample", "AddToEdgeDiv":
+					acc = append(acc, call)
+					idx := 1 // receiver, dw
+					if call.Call.StaticCallee().Name() == "AddToEdgeDiv" {
+						idx = 2 // receiver, to, dw
+					}
+					if dw == nil {
+						dw = call.Call.Args[idx]
+					} else if dw != call.Call.Args[idx] {
+						c.bad("C04-R4", key, p.relFile(call.Pos()), name+" passes different divisor values to its accumulating calls")
+						dw = call.Call.Args[idx]
+					}
+				}
+			}
+		}
+		if len(acc) < 2 || dw == nil {
+			c.undecided("C04-R4", key, p.relFile(f.Pos()), "accumulating calls (addSample, AddToEdgeDiv) not found in "+name)
+			continue
+		}
+		// sample loop header: outermost loop header dominating all accumulating calls
+		isHeader := func(d *ssa.BasicBlock) bool {
+			for _, pred := range d.Preds {
+				if d.Dominates(pred) {
+					return true
+				}
+			}
+			return false
+		}
+		var chain []*ssa.BasicBlock // loop headers dominating acc[0], innermost first
+		for d := acc[0].Block(); d != nil; d = d.Idom() {
+			if isHeader(d) {
+				chain = append(chain, d)
+			}
+		}
+		var hdr, frames *ssa.BasicBlock
+		for i := len(chain) - 1; i >= 0 && hdr == nil; i-- {
+			all := true
+			for _, a := range acc {
+				if !chain[i].Dominates(a.Block()) || !naturalLoop(chain[i])[a.Block()] {
+					all = false
+				}
+			}
+			if all {
+				hdr = chain[i]
+				if i > 0 {
+					frames = chain[i-1]
+				}
+			}
+		}
+		if hdr == nil || frames == nil {
+			c.undecided("C04-R4", key, p.relFile(f.Pos()), "sample loop / frame loop of "+name+" not recognised")
+			continue
+		}
+		for _, a := range acc {
+			if !frames.Dominates(a.Block()) {
+				frames = nil
+				break
+			}
+		}
+		if frames == nil {
+			c.undecided("C04-R4", key, p.relFile(f.Pos()), "the frame loop of "+name+" does not dominate all accumulating calls")
+			continue
+		}
+		loop := naturalLoop(hdr)
+		assume := func(cond ssa.Value) int {
+			cmp, ok := cond.(*ssa.BinOp)
+			if !ok {
+				return 0
+			}
+			var other ssa.Value
+			if cmp.X == dw {
+				other = cmp.Y
+			} else if cmp.Y == dw {
+				other = cmp.X
+			} else {
+				return 0
+			}
+			if k, ok := constInt(other); !ok || k != 0 {
+				return 0
+			}
+			switch cmp.Op {
+			case token.EQL:
+				return -1
+			case token.NEQ:
+				return 1
+			}
+			return 0
+		}
+		skipped := false
+		var skipAt *ssa.BasicBlock
+		seen := map[*ssa.BasicBlock]bool{}
+		var walk func(b, from *ssa.BasicBlock)
+		walk = func(b, from *ssa.BasicBlock) {
+			if skipped || b == frames || seen[b] {
+				return
+			}
+			if b == hdr {
+				skipped = true
+				skipAt = from
+				return
+			}
+			if !loop[b] {
+				return // leaves the loop (return): not a skipped sample
+			}
+			seen[b] = true
+			succs := b.Succs
+			if iff, ok := b.Instrs[len(b.Instrs)-1].(*ssa.If); ok {
+				switch assume(iff.Cond) {
+				case 1:
+					succs = b.Succs[:1]
+				case -1:
+					succs = b.Succs[1:]
+				}
+			}
+			for _, sc := range succs {
+				walk(sc, b)
+			}
+		}
+		for _, sc := range hdr.Succs {
+			if loop[sc] {
+				walk(sc, hdr)
+			}
+		}
+		if skipped {
+			pos := p.relFile(f.Pos())
+			if skipAt != nil && len(skipAt.Instrs) > 0 {
+				pos = p.relFile(skipAt.Instrs[len(skipAt.Instrs)-1].Pos())
+				if pos == "?" {
+					pos = p.relFile(f.Pos())
+				}
+			}
+			c.bad("C04-R4", key, pos, name+" can skip a sample whose mean divisor is non-zero (a path through one iteration avoids the frame loop although the divisor value is not zero): with the mean option that sample's count is missing from FlatDiv/CumDiv/WeightDiv and the means come out too large")
+		} else {
+			c.ok("C04-R4", key, p.relFile(frames.Instrs[0].Pos()), name+" skips a sample only when its divisor contribution is zero too", "assuming the divisor non-zero, every path through one iteration of the sample loop reaches the frame loop")
 		}
 	}
 }
